@@ -15,7 +15,7 @@ use crate::ours::{decode_bytes, encode, Container, Spec};
 use crate::props::{c01, c06};
 use crate::util::Rng;
 
-pub const STEER: u64 = 24;
+pub const STEER: u64 = 40;
 
 pub fn n_cases(ctx: &Ctx) -> u64 {
     let base = match (ctx.variant.as_str(), ctx.thorough()) {
@@ -106,6 +106,55 @@ fn steer(ctx: &Ctx, idx: u64) -> Vec<CaseOut> {
             }
             if outs.is_empty() {
                 outs.push(CaseOut::held("steer|tiny-chunks", true, "LZMA2 chunks with 5-7 compressed bytes declaring up to 70 000 uncompressed bytes"));
+            }
+            outs
+        }
+        24..=39 => {
+            // encoder around a window move: the position at which the window is full is found by a
+            // probing encode (hook counter), the bytes around it repeat what lies almost a whole
+            // dictionary in front of them, so that right after the move the match finders and the
+            // rep probes hand candidates at the largest legal distances to the unchecked accesses
+            if ctx.is("miri") {
+                return vec![CaseOut::skip("steer|encoder-window-move", "1 MB encodes are out of reach of the interpreter", "")];
+            }
+            use crate::props::c07;
+            let comps = c07::slide_components();
+            let c = comps[idx as usize % comps.len()].clone();
+            let mut o = c07::slide_opts(&mut r);
+            if idx % 4 != 3 {
+                // fast mode keeps a single extra byte in front of the dictionary
+                o.mode = EncodeMode::Fast;
+            }
+            let spec = Spec { c, o };
+            let cell = "steer|encoder-window-move";
+            let shadow = |msg: &str| msg.contains("VERIF-SHADOW");
+            let (data, edge, _e2, plans) = match c07::slide_setup(&spec, "window-move", cell, &mut r) {
+                Ok(x) => x,
+                Err(o) => {
+                    if let Outcome::Violation { detail, .. } = &o.outcome {
+                        if shadow(detail) {
+                            return vec![CaseOut::viol(cell, "shadow-assertion (encoder, window move)", detail.clone(), spec.desc())];
+                        }
+                    }
+                    return vec![CaseOut::skip(cell, "probing encode failed (functional failure, judged by C07)", spec.desc())];
+                }
+            };
+            let mut outs = Vec::new();
+            let mut runs = 0u64;
+            let picks: Vec<usize> = if tiny { vec![0, 9] } else { (0..plans.len()).collect() };
+            let single = (String::from("one write"), vec![data.len()], 0usize);
+            for (what, partition, flush_every) in std::iter::once(&single).chain(picks.iter().filter_map(|&i| plans.get(i))) {
+                runs += 1;
+                if let Err(p) = catch(|| encode(&spec, &data, partition, *flush_every)) {
+                    if shadow(&p.msg) {
+                        outs.push(CaseOut::viol(cell, "shadow-assertion (encoder, window move)", p.msg, format!("{} len={} window full after {edge} bytes: {what}", spec.desc(), data.len())));
+                        break;
+                    }
+                }
+            }
+            stat_add("window_move_encodes", runs);
+            if outs.is_empty() {
+                outs.push(CaseOut::held(cell, true, format!("{} len={} window full after {edge} bytes: {runs} call histories with far matches around the move", spec.desc(), data.len())));
             }
             outs
         }
